@@ -119,6 +119,31 @@ def spec_comutex(tier):
         scen_keys=["opts", "workers", "p1", "p2", "p3", "p4"], trace_timeout=1500)
 
 
+def spec_cosmutex(tier):
+    grid = []
+    triples = [("r", "w", ""), ("w", "w", "r"), ("r", "w", "w"), ("rw", "wr", ""), ("R", "w", "r"), ("W", "r", "w"), ("g", "G", "r")]
+    for o in ("00", "01", "10", "11"):
+        for p1, p2, p3 in triples:
+            d = {"opts": o, "workers": "2", "p1": p1, "p2": p2}
+            if p3:
+                d["p3"] = p3
+            grid.append(d)
+        grid.append({"opts": o, "workers": "1", "p1": "rw", "p2": "wr", "p3": "r"})
+    rand = [{"opts": o, "workers": "3", "p1": "rwr", "p2": "wrw", "p3": "RwG", "p4": "gWr"} for o in ("00", "01", "10", "11")]
+    rand += [{"opts": o, "workers": "2", "p1": "rrw", "p2": "wwr", "p3": "rw", "p4": "wr"} for o in ("10", "01")]
+    mc = [("CoSharedMutex_MC.cfg", 12, 900, "CoSharedMutex: 3 coroutines (readers / writers / tries), 4 option sets, 2 workers, "
+           "all interleavings, with happens-before bookkeeping"),
+          ("CoSharedMutex_P.cfg", 12, 900, "CoSharedMutex protocol only: 3-4 coroutines, 4 option sets")]
+    if tier != "quick":
+        mc.append(("CoSharedMutex_P2.cfg", 14, 3000, "CoSharedMutex protocol only: 2 rounds per coroutine"))
+    return ConcSpec(
+        name="CoSharedMutex", scenario="sm", grid=grid, inv_props={}, primary="C15",
+        mc_cfgs=mc, paths_cfg=None,
+        dfs_max=600 if tier == "quick" else 6000, preempt=2 if tier == "quick" else 3,
+        rand_execs=100 if tier == "quick" else 2000, rand_grid=rand,
+        scen_keys=["opts", "workers", "p1", "p2", "p3", "p4"], trace_timeout=1500)
+
+
 ALL_STRATS = ["all_none", "all_ff", "join_none", "join_ff"]
 ANY_STRATS = ["any_none", "any_ff", "any_lf"]
 
@@ -231,6 +256,14 @@ def c14(rep, tier, seed):
     rep.assumptions += ["coroutines run on the harness pool (1-3 workers, FIFO queue, no visible operation of its own; its "
                         "submit/take synchronisation is modelled as a release/acquire pair); UnlockOn / sticky unlock target "
                         "the same pool; 2-4 coroutines x 1-3 rounds"]
+
+
+@check("C15")
+def c15(rep, tier, seed):
+    """coroutine SharedMutex: writers exclude all, readers share, nobody is forgotten (CoSharedMutex.tla)"""
+    run_conc(rep, spec_cosmutex(tier), tier, seed, {"C15"})
+    rep.assumptions += ["coroutines run on the harness pool (1-3 workers); a worker that spins on the internal spinlock is not "
+                        "scheduled again until another worker has modified something (fair scheduling of spin loops)"]
 
 
 @check("C09")
